@@ -56,7 +56,12 @@ func (c *backupClient) Inline(e *Engine, call *ast.CallExpr, callee *types.Func,
 		return false
 	}
 	sig := callee.Type().(*types.Signature)
-	if sig.Results().Len() != 1 || !types.Identical(sig.Results().At(0).Type(), c.tokenT) {
+	tokenHelper := sig.Results().Len() == 1 && types.Identical(sig.Results().At(0).Type(), c.tokenT)
+	// look-ahead helpers of the scanner (accept(c), peek()) and local closures (emit(kind)) are interpreted in
+	// place too, so that what they read and append counts for the iteration that called them
+	lookahead := c.isScannerMethod(callee) && fnName(callee) != "setPos"
+	closure := e.P.isClosureDecl(decl)
+	if !tokenHelper && !lookahead && !closure {
 		return false
 	}
 	loops := false
@@ -177,12 +182,12 @@ func (c *backupClient) where(e *Engine) string {
 	return c.fn
 }
 
-func (c *backupClient) recvKey(e *Engine, call *ast.CallExpr) (string, bool) {
+func (c *backupClient) recvKey(e *Engine, st *State, call *ast.CallExpr) (string, bool) {
 	sel, ok := ast.Unparen(call.Fun).(*ast.SelectorExpr)
 	if !ok {
 		return "", false
 	}
-	k := e.Canon(sel.X)
+	k := e.CanonSt(st, sel.X) // the receiver of a helper interpreted in place is the caller's scanner
 	if !k.OK {
 		return "?", true
 	}
@@ -213,7 +218,7 @@ func (c *backupClient) PreCall(e *Engine, st *State, call *ast.CallExpr, callee 
 		if c.backed == nil {
 			c.backed = map[string]bool{}
 		}
-		rk, _ := c.recvKey(e, call)
+		rk, _ := c.recvKey(e, st, call)
 		if _, seen := c.backed[name]; !seen {
 			c.backed[name] = true
 		}
@@ -224,7 +229,7 @@ func (c *backupClient) PreCall(e *Engine, st *State, call *ast.CallExpr, callee 
 	if callee != c.prev {
 		return nil
 	}
-	rk, _ := c.recvKey(e, call)
+	rk, _ := c.recvKey(e, st, call)
 	key := fmt.Sprintf("%s prev() #%d", c.where(e), c.ordinal(e, call))
 	last := st.Ext("lastnext:" + rk)
 	switch {
@@ -263,26 +268,46 @@ func (c *backupClient) PostCall(e *Engine, st *State, call *ast.CallExpr, callee
 	if !c.isScannerMethod(callee) {
 		return nil
 	}
-	rk, _ := c.recvKey(e, call)
+	rk, _ := c.recvKey(e, st, call)
 	switch callee {
 	case c.next:
 		st = st.WithExt("lastnext:"+rk, "ignored")
 		st = st.WithExt("lastnextval:"+rk, "")
+		st = st.WithExt("eofread:"+rk, st.Ext("eof:"+rk)) // a read at the end of the input fails again
 		pos := call.Pos()
 		if fr := e.Frames(); len(fr) > 0 {
 			pos = fr[0].Call.Pos() // a look-ahead inside a helper counts for the clause that called the helper
 		}
 		return st.WithExt("lastnextpos:"+rk, strconv.Itoa(int(pos)))
 	case c.prev:
-		return st.WithExt("lastnext:"+rk, "after:prev()")
+		// the rune that is given back is the one the next read returns: what is known about it is kept
+		gave := ""
+		if vk := st.Ext("lastnextval:" + rk); vk != "" {
+			f := st.Get(vk)
+			if f == nil {
+				f = snapFact(st, "lastnextval:"+rk)
+			}
+			if f != nil {
+				if f.HasEq {
+					gave = "=" + f.Eq
+				}
+				for _, ne := range f.Ne {
+					gave += "|!" + ne
+				}
+			}
+		}
+		return st.WithExt("lastnext:"+rk, "after:prev()").WithExt("gaveback:"+rk, gave)
 	default:
-		return st.WithExt("lastnext:"+rk, "after:"+callee.Name()+"()")
+		if _, inPlace := e.inlined[call]; inPlace {
+			return nil // a look-ahead helper interpreted in place: its own reads and back-ups are what counts
+		}
+		return st.WithExt("lastnext:"+rk, "after:"+callee.Name()+"()").WithExt("gaveback:"+rk, "").WithExt("eof:"+rk, "").WithExt("eofread:"+rk, "")
 	}
 }
 
 func (c *backupClient) PostAssign(e *Engine, st *State, lhs, rhs []ast.Expr, _ ast.Stmt) *State {
 	// tokens = append(tokens, ...): this iteration produced a token
-	if c.tokenT != nil && len(lhs) == 1 && len(rhs) == 1 && len(e.Frames()) == 0 {
+	if c.tokenT != nil && len(lhs) == 1 && len(rhs) == 1 {
 		if call, ok := ast.Unparen(rhs[0]).(*ast.CallExpr); ok && IsBuiltinCall(e.Info, call, "append") {
 			if sl, ok := e.Info.TypeOf(lhs[0]).Underlying().(*types.Slice); ok && types.Identical(sl.Elem(), c.tokenT) && st.Ext("tok:emitted") != "1" {
 				return st.WithExt("tok:emitted", "1")
@@ -296,7 +321,7 @@ func (c *backupClient) PostAssign(e *Engine, st *State, lhs, rhs []ast.Expr, _ a
 	if !ok || Callee(e.Info, call) != c.next {
 		return nil
 	}
-	rk, _ := c.recvKey(e, call)
+	rk, _ := c.recvKey(e, st, call)
 	if id, ok := lhs[1].(*ast.Ident); ok && id.Name != "_" {
 		if k := e.Canon(id); k.OK {
 			st = st.WithExt("lastnext:"+rk, k.Key)
@@ -304,8 +329,26 @@ func (c *backupClient) PostAssign(e *Engine, st *State, lhs, rhs []ast.Expr, _ a
 	}
 	if id, ok := lhs[0].(*ast.Ident); ok && id.Name != "_" {
 		if k := e.Canon(id); k.OK {
+			if gave := st.Ext("gaveback:" + rk); gave != "" {
+				// the same rune as the one given back by the prev() before this read
+				st = st.WithExt("gaveback:"+rk, "")
+				if n := e.update(st, k, func(f *Fact) {
+					for _, part := range strings.Split(gave, "|") {
+						switch {
+						case strings.HasPrefix(part, "="):
+							if !f.HasEq {
+								f.HasEq, f.Eq = true, part[1:]
+							}
+						case strings.HasPrefix(part, "!"):
+							f.Ne = addSorted(f.Ne, part[1:])
+						}
+					}
+				}); n != nil {
+					st = n
+				}
+			}
 			st = st.WithExt("lastnextval:"+rk, k.Key)
-			if c.tokenT != nil && len(e.Frames()) == 0 {
+			if c.tokenT != nil {
 				if st.Ext("iterfirst") == "" {
 					st = st.WithExt("iterfirst", k.Key) // the character this iteration of the scan loop dispatches on
 				} else if st.Ext("itersecond") == "" {
@@ -326,6 +369,11 @@ func (c *backupClient) LoopHead(e *Engine, st *State, loop ast.Stmt) *State {
 	for k := range st.ext {
 		if strings.HasPrefix(k, "snap:") {
 			st = st.WithExt(k, "") // what an earlier iteration remembered about its look-ahead
+		}
+	}
+	for k := range st.ext {
+		if strings.HasPrefix(k, "eof:") || strings.HasPrefix(k, "eofread:") || strings.HasPrefix(k, "gaveback:") {
+			st = st.WithExt(k, "")
 		}
 	}
 	return st.WithExt("iterfirst", "").WithExt("itersecond", "").WithExt("iter:comment", "").WithExt("tok:emitted", "")
@@ -529,6 +577,14 @@ func (c *backupClient) recordToken(e *Engine, st *State, n ast.Node) *State {
 			}
 		}
 	}
+	for k, v := range st.ext {
+		if strings.HasPrefix(k, "eofread:") && v == "1" && site.second.okTrue {
+			return nil // the look-ahead succeeded although the read before it had hit the end of the input: not a real path
+		}
+	}
+	if os.Getenv("PQL_DEBUG_TOK") != "" {
+		fmt.Fprintf(os.Stderr, "TOK %s first=%q looked=%v backed=%v okT=%v okF=%v eq=%q ne=%v ctx=%s\n", site.kind, site.first, site.second.looked, site.backed, site.second.okTrue, site.second.okFalse, site.second.eq, site.second.ne, site.ctx)
+	}
 	c.literals = append(c.literals, site)
 	return nil
 }
@@ -599,6 +655,10 @@ func (c *backupClient) Stmt(e *Engine, st *State, s ast.Stmt) *State {
 			rk := strings.TrimPrefix(k, "lastnext:")
 			if st.Ext("lastok:"+rk) != v {
 				st = st.WithExt("lastok:"+rk, v)
+			}
+			// a read that failed: the scanner is at the end of its input (and stays there until it is moved)
+			if f := st.Get(v); f != nil && f.HasEq && f.Eq == "false" && st.Ext("eof:"+rk) != "1" {
+				st = st.WithExt("eof:"+rk, "1")
 			}
 		}
 	}
@@ -684,7 +744,6 @@ func runeKey(s string) string { return strconv.Itoa(int([]rune(s)[0])) }
 
 func ruleC09Dispatch(p *Program, r *Run, sites []tokenSite, classes map[string][]bool) {
 	pkg := p.Parser
-	info := pkg.TypesInfo
 	fn := "parser.Scan"
 	type agg struct {
 		pos    token.Pos
@@ -869,12 +928,10 @@ func ruleC09Dispatch(p *Program, r *Run, sites []tokenSite, classes map[string][
 	r.Floor("C09/classes", 7)
 
 	// keywords
-	kw := p.PkgVarValue(pkg, "keywords").(*ast.CompositeLit)
-	got := map[string]string{}
-	for _, el := range kw.Elts {
-		kv := el.(*ast.KeyValueExpr)
-		k, _ := constString(info, kv.Key)
-		got[k] = constName(info, kv.Value)
+	got, kwPos := p.keywordTable()
+	if got == nil {
+		r.Fail("C09/keywords", "parser.keywords", p.Pos(scan.Pos()), "no keyword table found: neither a map from words to token kinds nor a function word -> (kind, found) that switches on the word")
+		return
 	}
 	var kws []string
 	for k := range docKeywords {
@@ -887,7 +944,7 @@ func ruleC09Dispatch(p *Program, r *Run, sites []tokenSite, classes map[string][
 	}
 	sort.Strings(kws)
 	for _, k := range kws {
-		r.Check(got[k] == docKeywords[k] && got[k] != "", "C09/keywords", fmt.Sprintf("parser.keywords[%q]", k), p.Pos(kw.Pos()), "keyword maps to "+docKeywords[k], fmt.Sprintf("keyword table has %q -> %q, documented %q", k, got[k], docKeywords[k]))
+		r.Check(got[k] == docKeywords[k] && got[k] != "", "C09/keywords", fmt.Sprintf("parser.keywords[%q]", k), p.Pos(kwPos), "keyword maps to "+docKeywords[k], fmt.Sprintf("keyword table has %q -> %q, documented %q", k, got[k], docKeywords[k]))
 	}
 	r.Floor("C09/keywords", 4)
 }
@@ -908,6 +965,9 @@ type predEval struct {
 	evalB func(e ast.Expr) (bool, bool)
 	evalI func(e ast.Expr) (int64, bool)
 	exec  func(list []ast.Stmt) (bool, bool, bool)
+	// integer-valued functions: with wantInt set, `return x` evaluates x as an integer into intVal
+	wantInt *bool
+	intVal  *int64
 }
 
 func newPredEval(p *Program, env map[types.Object]int64, benv map[types.Object]bool, depth int) *predEval {
@@ -1107,6 +1167,7 @@ func newPredEval(p *Program, env map[types.Object]int64, benv map[types.Object]b
 		return false, false
 	}
 	// statements: returns (value, returned, ok)
+	wantInt, intVal := new(bool), new(int64)
 	var exec func(list []ast.Stmt) (bool, bool, bool)
 	exec = func(list []ast.Stmt) (bool, bool, bool) {
 		for _, st := range list {
@@ -1114,6 +1175,11 @@ func newPredEval(p *Program, env map[types.Object]int64, benv map[types.Object]b
 			case *ast.ReturnStmt:
 				if len(s.Results) != 1 {
 					return false, false, false
+				}
+				if *wantInt {
+					n, ok := evalI(s.Results[0])
+					*intVal = n
+					return false, true, ok
 				}
 				v, ok := evalB(s.Results[0])
 				return v, true, ok
@@ -1218,7 +1284,7 @@ func newPredEval(p *Program, env map[types.Object]int64, benv map[types.Object]b
 		}
 		return false, false, true
 	}
-	return &predEval{evalB: evalB, evalI: evalI, exec: exec}
+	return &predEval{evalB: evalB, evalI: evalI, exec: exec, wantInt: wantInt, intVal: intVal}
 }
 
 // evalBoolExpr evaluates a boolean expression in which the variables of env have the given values.
@@ -1251,6 +1317,33 @@ func evalPredicate(p *Program, fd *ast.FuncDecl, args []int64, depth int) (resul
 		return false, false
 	}
 	return v, true
+}
+
+// evalIntFunc evaluates a side-effect-free function from integers (runes, bytes) to an integer.
+func evalIntFunc(p *Program, fd *ast.FuncDecl, args []int64) (int64, bool) {
+	if fd == nil || fd.Body == nil {
+		return 0, false
+	}
+	env := map[types.Object]int64{}
+	i := 0
+	for _, f := range fd.Type.Params.List {
+		for _, n := range f.Names {
+			if i < len(args) {
+				env[p.Info.Defs[n]] = args[i]
+			}
+			i++
+		}
+	}
+	if i != len(args) {
+		return 0, false
+	}
+	pe := newPredEval(p, env, map[types.Object]bool{}, 0)
+	*pe.wantInt = true
+	_, ret, ok := pe.exec(fd.Body.List)
+	if !ok || !ret {
+		return 0, false
+	}
+	return *pe.intVal, true
 }
 
 // ---- C09/spans: token span shape.
@@ -1384,10 +1477,33 @@ func ruleC09Spans(p *Program, r *Run) {
 			}
 			return false
 		}
-		if len(d.defs[o]) != 1 || !isScannerPos(d.defs[o][0]) {
+		// one definition from the scanner position; a constant initial value before it (var start = 0; for { start =
+		// s.pos ... }) does not count: the position is saved again at the top of every iteration
+		posIdx := -1
+		for i, df := range d.defs[o] {
+			switch {
+			case isScannerPos(df):
+				if posIdx >= 0 {
+					return false
+				}
+				posIdx = i
+			case constOf(info, df) != nil:
+			default:
+				return false
+			}
+		}
+		if posIdx < 0 {
 			return false
 		}
-		as := d.defStmt[o][0]
+		as := d.defStmt[o][posIdx]
+		if len(d.defs[o]) > 1 {
+			// only acceptable when the position is saved at the top of a loop body
+			if blk, ok := p.Parent(as).(*ast.BlockStmt); !ok || len(blk.List) == 0 || blk.List[0] != ast.Stmt(as) {
+				return false
+			} else if _, isLoop := p.Parent(blk).(*ast.ForStmt); !isLoop {
+				return false
+			}
+		}
 		switch parent := p.Parent(as).(type) {
 		case *ast.BlockStmt:
 			if len(parent.List) > 0 && parent.List[0] == ast.Stmt(as) {
@@ -1541,6 +1657,13 @@ func ruleC09Runes(p *Program, r *Run) {
 type lookaheadClient struct {
 	loopClient
 	hasDefer bool
+	inline   map[*types.Func]bool // helpers whose own failure paths are decided where they are called
+}
+
+// Inline: a helper that may report failure after consuming runes is judged together with its caller (which may put
+// the position back itself).
+func (c *lookaheadClient) Inline(e *Engine, call *ast.CallExpr, callee *types.Func, decl *ast.FuncDecl) bool {
+	return c.inline[callee]
 }
 
 func (c *lookaheadClient) Return(e *Engine, st *State, ret *ast.ReturnStmt) {
@@ -1568,14 +1691,13 @@ func ruleC09Lookahead(p *Program, r *Run) {
 	pkg := p.Parser
 	info := pkg.TypesInfo
 	w := &loopWorld{p: p, minCons: map[*types.Func]int{}}
-	for _, fd := range AllFuncs(pkg) {
+	isLookahead := func(fd *ast.FuncDecl) bool {
 		fobj := FuncObj(pkg, fd)
-		if cursorOf(fobj) != "scanner" || fd.Type.Results == nil || len(fd.Type.Results.List) != 1 || TypeStr(info.TypeOf(fd.Type.Results.List[0].Type)) != "bool" {
-			continue
-		}
+		return cursorOf(fobj) == "scanner" && fd.Type.Results != nil && len(fd.Type.Results.List) == 1 && TypeStr(info.TypeOf(fd.Type.Results.List[0].Type)) == "bool"
+	}
+	run := func(fd *ast.FuncDecl, inline map[*types.Func]bool) *Engine {
 		fn := FuncName(pkg, fd)
-		r.Saw(fn)
-		c := &lookaheadClient{}
+		c := &lookaheadClient{inline: inline}
 		c.w, c.pkg, c.fd, c.fn, c.loops = w, pkg, fd, fn, map[ast.Stmt]int{}
 		// deferred restore: defer func() { if !<result> { s.setPos(<entry>) } }()
 		var resName types.Object
@@ -1614,8 +1736,62 @@ func ruleC09Lookahead(p *Program, r *Run) {
 		})
 		e := NewEngine(p, pkg, fd, c)
 		e.Run(newState().WithExt("net", "0"))
+		return e
+	}
+	failing := func(e *Engine) bool {
+		for _, s := range e.Sites() {
+			if len(s.Fails) > 0 {
+				return true
+			}
+		}
+		return false
+	}
+	var units []*ast.FuncDecl
+	engines := map[*ast.FuncDecl]*Engine{}
+	for _, fd := range AllFuncs(pkg) {
+		if isLookahead(fd) {
+			units = append(units, fd)
+			r.Saw(FuncName(pkg, fd))
+			engines[fd] = run(fd, nil)
+		}
+	}
+	// a helper that fails on its own but is only ever called by other look-ahead methods is decided in their context
+	inline := map[*types.Func]bool{}
+	for _, fd := range units {
+		fobj := FuncObj(pkg, fd)
+		if !failing(engines[fd]) || !p.onlyCalledDirectly(fobj) || !smallBody(fd) {
+			continue
+		}
+		loops, callers, allChecked := false, 0, true
+		ast.Inspect(fd.Body, func(n ast.Node) bool {
+			switch n.(type) {
+			case *ast.ForStmt, *ast.RangeStmt:
+				loops = true
+			}
+			return true
+		})
+		for _, caller := range AllFuncs(pkg) {
+			if caller != fd && p.callsAny(caller, map[*types.Func]bool{fobj: true}) {
+				callers++
+				if !isLookahead(caller) {
+					allChecked = false
+				}
+			}
+		}
+		if !loops && callers > 0 && allChecked {
+			inline[fobj] = true
+		}
+	}
+	for _, fd := range units {
+		if inline[FuncObj(pkg, fd)] {
+			continue // judged where it is called
+		}
+		e := engines[fd]
+		if len(inline) > 0 && p.callsAny(fd, inline) {
+			e = run(fd, inline)
+		}
 		for _, m := range e.Errs {
-			r.Fail("C09/lookahead", fn+" engine", "-", m)
+			r.Fail("C09/lookahead", FuncName(pkg, fd)+" engine", "-", m)
 		}
 		e.FlushSites(r)
 	}
@@ -1625,7 +1801,6 @@ func ruleC09Lookahead(p *Program, r *Run) {
 // ---- C09/escapes: the escape decoding table of string literals; C09/unquote: backtick un-doubling.
 func ruleC09Escapes(p *Program, r *Run) {
 	pkg := p.Parser
-	info := pkg.TypesInfo
 	fd := p.MustFunc(pkg, "scanner.string")
 	fn := FuncName(pkg, fd)
 	r.Saw(fn)
@@ -1639,6 +1814,32 @@ func ruleC09Escapes(p *Program, r *Run) {
 		r.Fail("C09/escapes", fn+" engine", "-", m)
 	}
 	if len(ec.got) == 0 {
+		// the decoding may live in a function from the escaped character to what it stands for (unescapeChar),
+		// applied to the raw text after the literal was delimited: that function is evaluated for every character
+		if dec := p.escapeDecoder(fd); dec != nil {
+			bad := ""
+			for c := rune(0); c < runeLimit && bad == ""; c++ {
+				got, ok := evalIntFunc(p, dec, []int64{int64(c)})
+				want := c
+				switch c {
+				case 'n':
+					want = '\n'
+				case 't':
+					want = '\t'
+				}
+				if !ok {
+					bad = "the decoding function cannot be evaluated"
+				} else if rune(got) != want {
+					bad = fmt.Sprintf("\\%c decodes to %q, documented %q", c, rune(got), want)
+				}
+			}
+			r.Check(bad == "", "C09/escapes", fn+" escape \\n", p.Pos(dec.Pos()), "decodes to \"\\n\" ("+FuncName(pkg, dec)+" evaluated on U+0000..U+30FF)", bad)
+			r.Check(bad == "", "C09/escapes", fn+" escape \\t", p.Pos(dec.Pos()), "decodes to \"\\t\"", bad)
+			r.Check(bad == "", "C09/escapes", fn+" other escapes", p.Pos(dec.Pos()), "every other escaped character stands for itself", bad)
+			r.Floor("C09/escapes", 3)
+			ruleC09Unquote(p, r)
+			return
+		}
 		r.Fail("C09/escapes", fn+" escape decoding", p.Pos(fd.Pos()), "no rune is ever written into the value after a backslash was read: escape sequences are not decoded")
 		return
 	}
@@ -1674,8 +1875,13 @@ func ruleC09Escapes(p *Program, r *Run) {
 	r.Check(len(dflt) == 1 && dflt["self"], "C09/escapes", fn+" any other escaped character", p.Pos(fd.Pos()), "stands for itself (so \\\" \\' \\\\ work)", fmt.Sprintf("an escaped character that is not n or t does not stand for itself: {%s}", render(dflt)))
 	r.Check(len(ec.got["\n"]) == 0 && ec.nlReturn, "C09/escapes", fn+" backslash before a newline", p.Pos(fd.Pos()), "is an unterminated string (strings are one-line)", "a backslash directly before a newline does not end the token with an error")
 	r.Floor("C09/escapes", 4)
+	ruleC09Unquote(p, r)
+}
 
-	// quotedIdent: Value = ReplaceAll(text between the backticks, "``", "`")
+// ruleC09Unquote: quotedIdent: Value = ReplaceAll(text between the backticks, "``", "`")
+func ruleC09Unquote(p *Program, r *Run) {
+	pkg := p.Parser
+	info := pkg.TypesInfo
 	qd := p.MustFunc(pkg, "scanner.quotedIdent")
 	r.Saw(FuncName(pkg, qd))
 	okUn := false
@@ -1880,4 +2086,127 @@ func (p *Program) scanEntryClasses() (map[string][]bool, map[string]bool) {
 		}
 	}
 	return p.entryClasses, p.entryBacked
+}
+
+// escapeDecoder: a function rune -> rune (or byte -> byte) among the helpers the string scanner was split into whose
+// result is written into a builder.
+func (p *Program) escapeDecoder(fd *ast.FuncDecl) *ast.FuncDecl {
+	info := p.Info
+	for _, root := range p.regionOf(p.Parser, fd.Body) {
+		var found *ast.FuncDecl
+		ast.Inspect(root, func(n ast.Node) bool {
+			call, ok := n.(*ast.CallExpr)
+			if !ok || found != nil {
+				return found == nil
+			}
+			f := Callee(info, call)
+			decl, dpkg := p.DeclOf(f)
+			if decl == nil || dpkg != p.Parser || p.recordedFunc(f) {
+				return true
+			}
+			sig := f.Type().(*types.Signature)
+			if sig.Params().Len() != 1 || sig.Results().Len() != 1 {
+				return true
+			}
+			pb, ok1 := sig.Params().At(0).Type().Underlying().(*types.Basic)
+			rb, ok2 := sig.Results().At(0).Type().Underlying().(*types.Basic)
+			if !ok1 || !ok2 || pb.Info()&types.IsInteger == 0 || rb.Info()&types.IsInteger == 0 {
+				return true
+			}
+			// its result is written (WriteRune / WriteByte / append)
+			if par, isCall := p.Parent(call).(*ast.CallExpr); isCall {
+				if sel, isSel := ast.Unparen(par.Fun).(*ast.SelectorExpr); isSel && strings.HasPrefix(sel.Sel.Name, "Write") {
+					found = decl
+				}
+				if IsBuiltinCall(info, par, "append") {
+					found = decl
+				}
+			}
+			return true
+		})
+		if found != nil {
+			return found
+		}
+	}
+	return nil
+}
+
+// keywordTable: the lexer's keyword table, whether it is a map literal (word -> kind) or a function that switches on
+// the word and returns the kind.
+func (p *Program) keywordTable() (map[string]string, token.Pos) {
+	pkg := p.Parser
+	info := p.Info
+	// a package-level map[string]TokenKind
+	for _, f := range pkg.Syntax {
+		for _, d := range f.Decls {
+			gd, ok := d.(*ast.GenDecl)
+			if !ok || gd.Tok != token.VAR {
+				continue
+			}
+			for _, sp := range gd.Specs {
+				vs := sp.(*ast.ValueSpec)
+				for i, n := range vs.Names {
+					if i >= len(vs.Values) || TypeStr(info.TypeOf(n)) != "map[string]parser.TokenKind" {
+						continue
+					}
+					cl, ok := ast.Unparen(vs.Values[i]).(*ast.CompositeLit)
+					if !ok {
+						continue
+					}
+					got := map[string]string{}
+					for _, el := range cl.Elts {
+						if kv, ok := el.(*ast.KeyValueExpr); ok {
+							if k, isS := constString(info, kv.Key); isS {
+								got[k] = constName(info, kv.Value)
+							}
+						}
+					}
+					if _, hasAnd := got["and"]; hasAnd || objName(info.Defs[n]) == "keywords" {
+						return got, cl.Pos()
+					}
+				}
+			}
+		}
+	}
+	// func(word string) (TokenKind, bool) { switch word { case "and": return TokenAnd, true ... } }
+	for _, fd := range AllFuncs(pkg) {
+		sig := FuncObj(pkg, fd).Type().(*types.Signature)
+		if sig.Params().Len() != 1 || TypeStr(sig.Params().At(0).Type()) != "string" || sig.Results().Len() < 1 || TypeStr(sig.Results().At(0).Type()) != "parser.TokenKind" {
+			continue
+		}
+		if len(fd.Type.Params.List) != 1 || len(fd.Type.Params.List[0].Names) != 1 {
+			continue
+		}
+		param := info.Defs[fd.Type.Params.List[0].Names[0]]
+		got := map[string]string{}
+		okShape := false
+		ast.Inspect(fd.Body, func(n ast.Node) bool {
+			sw, ok := n.(*ast.SwitchStmt)
+			if !ok || sw.Tag == nil || objOf(info, sw.Tag) != param {
+				return true
+			}
+			okShape = true
+			for _, cs := range sw.Body.List {
+				cc := cs.(*ast.CaseClause)
+				if cc.List == nil || len(cc.Body) == 0 {
+					continue
+				}
+				ret, isRet := cc.Body[len(cc.Body)-1].(*ast.ReturnStmt)
+				if !isRet || len(ret.Results) < 1 {
+					okShape = false
+					continue
+				}
+				for _, ce := range cc.List {
+					if k, isS := constString(info, ce); isS {
+						got[k] = constName(info, ret.Results[0])
+					}
+				}
+			}
+			return false
+		})
+		if okShape && len(got) > 0 {
+			return got, fd.Pos()
+		}
+	}
+	return nil, token.NoPos
 }
